@@ -23,6 +23,7 @@ def knownOverrides : List (String × String × Bool) := [
   ("CholLinearOperator", "solve", false),
   ("CholLinearOperator", "inv_quad", false),
   ("CholLinearOperator", "inv_quad_logdet", false),
+  ("CholLinearOperator", "_get_indices:fmod", false),
   ("ConstantDiagLinearOperator", "matmul", true),
   ("ConstantDiagLinearOperator", "__add__", true),
   ("ConstantMulLinearOperator", "_get_indices:fmod", false),
@@ -63,6 +64,7 @@ def knownOverrides : List (String × String × Bool) := [
   ("SumLinearOperator", "_get_indices:fmod", false),
   ("ToeplitzLinearOperator", "add_jitter", false),
   ("ToeplitzLinearOperator", "_get_indices:fmod", true),
+  ("TransposePermutationLinearOperator", "_get_indices:fmod", true),
   ("TriangularLinearOperator", "solve", false),
   ("TriangularLinearOperator", "inv_quad_logdet", false),
   ("TriangularLinearOperator", "__add__", false),
